@@ -305,6 +305,13 @@ static void scen_xts(const xtsfam_t *f, int route, rng_t *r)
         if (mode == M_SECRETS) {
                 aes_needles(key1, ks_bits2[ks], 1); aes_needles(key2, ks_bits2[ks], 0);
                 uint8_t et[16]; ref_aes_enc(&a2, tw, et); add_needle(et, "encrypted tweak E_K2(T)");
+                /* the per-block tweaks E_K2(T) x alpha^j are equally secret (multiplication by alpha is invertible) */
+                for (int j = 1; j <= 31; j++) {
+                        int carry = et[15] >> 7;
+                        for (int b = 15; b > 0; b--) et[b] = (uint8_t) (et[b] << 1 | et[b - 1] >> 7);
+                        et[0] = (uint8_t) (et[0] << 1) ^ (carry ? 0x87 : 0);
+                        add_needle(et, "per-block tweak E_K2(T) x alpha^j");
+                }
         }
         void *fn = route == R_FAM ? (void *) f->f[ks][dir][xp] : route == R_ISAL ? (void *) xts_isal[ks][dir][xp] : route == R_LEGACY ? (void *) xts_legacy[ks][dir][xp] : (void *) xts_entries[ks][dir][xp];
         uint64_t rv = T(fn, 0, len < 16 ? "short" : (len & 15) ? "steal" : "whole", U(k2), U(k1), U(twb), len, U(in), U(out));
